@@ -539,7 +539,7 @@ def gadget_items(tier):
 def mirror_items():
     """Two namespaces that define the SAME names with the SAME doc texts (unqualified references resolve per namespace), alone and
     with a third namespace that uses both: whatever is keyed by a bare type name or by a doc text must not confuse the two."""
-    def defs(third):
+    def defs(other_ns):
         d = [mkstruct('Common', fields=[mkfield('x', I32)]),
              mkstruct('Deep', fields=[mkfield('c', R(None, 'Common'))], doc='Deep part, see :type:`Common`.'),
              mkstruct('Island', fields=[mkfield('x', I32)]),
@@ -549,12 +549,14 @@ def mirror_items():
              mkunion('Pick', tags=[mktag('pv'), mktag('pt', R(None, 'Target'))], doc='Picks :type:`Second`.'),
              mkroute('aux', 1, R(None, 'Second'), VOID, VOID, doc='Helper for :route:`go`.'),
              mkroute('go', 1, R(None, 'Start'), R(None, 'Pick'), VOID, doc='Goes to :type:`Target` via :route:`aux`.'),
+             mkroute('hop', 1, VOID, VOID, VOID, doc='First :route:`%saux`, then :route:`idle` and :type:`Island`.' % (other_ns + '.' if other_ns else '')),
              mkroute('idle', 1, R(None, 'Island'), VOID, VOID)]
         return tuple(sorted(d, key=mm.def_sort_key))
     out = []
     for order in (('wa', 'wb'), ('wb', 'wa')):
-        nss = [Namespace(n, (File(None, (), defs(False)),)) for n in order]
-        routes = [(n, r, 1) for n in ('wa', 'wb') for r in ('go', 'aux')] + [('wa', 'idle', 1)]
+        # wa's `hop` route doc names wb.aux with a qualifier and then wa's own idle without one; wb's hop names its own aux (qualified)
+        nss = [Namespace(n, (File(None, ('wb',) if n == 'wa' else (), defs('wb' if n == 'wa' else None)),)) for n in order]
+        routes = [(n, r, 1) for n in ('wa', 'wb') for r in ('go', 'aux')] + [('wa', 'hop', 1)]
         out.append((('mirror', 'two namespaces, same names and docs', ' '.join(order)), Model(tuple(nss)), routes, [('wb', 'Target'), ('wa', 'Deep')], True))
         third = Namespace('wc', (File(None, ('wa', 'wb'), (mkstruct('Both', fields=[mkfield('a', R('wa', 'Start')), mkfield('b', N(R('wb', 'Start')))], doc='Both :type:`wa.Target` and :type:`wb.Second`.'),
                                                            mkroute('reach', 1, R(None, 'Both'), R('wb', 'Pick'), R('wa', 'Pick')))),))
